@@ -147,6 +147,9 @@ def snapshot(sch):
     active = [[int(k), v.trial_decision, int(v.bracket)] for k, v in sch._active_trials.items()]
     out = {"rungs": rungs, "running": running, "task_info": task_info, "active": active,
            "thresholds": thresholds, "pasha": pasha, "cost_offset": cost_offset}
+    if any(hasattr(e, "cost_val") for rs in t._rung_systems for r in rs._rungs for e in r.data):
+        # cost-aware promotion: the cost recorded with each rung entry is the trial's total cost up to that level
+        out["rung_costs"] = [[[[int(e.trial_id), frac_str(e.cost_val)] for e in r.data] for r in rs._rungs] for rs in t._rung_systems]
     if hasattr(sch.searcher, "state_transformer"):
         st = sch.searcher.state_transformer.state
         out["pending"] = [[int(p.trial_id), int(p.resource)] for p in st.pending_evaluations]
@@ -275,7 +278,8 @@ def run_scenario(spec):
         lines.append((inp, out))
         events.append({"ev": "result", "trial": tid, "resource": r, "metric": v, "decision": d,
                        "rungs_after": out["rungs"], "rungs_before": before["rungs"], "prev_decision": prev_dec,
-                       "pasha_after": out["pasha"], "pasha_before": before["pasha"], "bracket": int(sch._active_trials[str(tid)].bracket)})
+                       "pasha_after": out["pasha"], "pasha_before": before["pasha"], "bracket": int(sch._active_trials[str(tid)].bracket),
+                       "cost": res.get(COST), "rung_costs_after": out.get("rung_costs")})
         return d
 
     while n_events < spec["max_events"]:
